@@ -432,7 +432,7 @@ func c16History(rep *Report, m *model.Client, cfg engine.Config, ops []engine.Op
 			rep.sample(map[string]string{"part": "B", "config": cfg.String(), "damage": dc.name, "expect": expect, "actual": actual})
 		}
 		ok := (expect == "error" && outcome == "error") || (expect == "state" && actual == "state")
-		if !ok && expect == "state" && outcome == "wrong-state" && want.Txid != e.Committed.Txid && laterWrites {
+		if !ok && expect == "state" && (outcome == "wrong-state" || outcome == "error") && want.Txid != e.Committed.Txid && laterWrites {
 			rep.violate(Violation{Kind: "oracle", Sig: "fallback-to-older-header-after-later-writes",
 				Detail: fmt.Sprintf("%s on %s: the intact older header is selected, but pages of its state were reused by a transaction begun after the newest commit: %s", dc.name, cfg, actual),
 				Replay: c16Replay{Config: cfg, Ops: ops, HistSeed: hseed, Damage: dc.name, Expect: expect, Actual: actual}})
